@@ -211,6 +211,24 @@ def _ci_view(cfg, i, path):
     return L.And(L.Not(L.And(occupied, L.Not(same_key))), L.ite(same_key, unchanged, z3.Select(M, *Ks) == want))
 
 
+def _ci_undo(cfg, i, path):
+    """the undo list is part of the function's result: a change of the index leaves exactly one entry (index, old key or None, new key or None) - callers restore from it"""
+    if cfg['fn'] != 'update_composite_index' or path.outcome != 'ret': return None
+    undo = path.state['undo']
+    old = i['_old'] if cfg['old'] == 'vals' else None
+    new = i['_new'] if cfg['new'] == 'vals' else None
+    if old is None and new is None: return len(undo) == 0
+    if old is not None and new is not None:
+        same_key = z3.And(*[a == b for a, b in zip(old, new)])
+        if len(undo) == 0: return same_key                      # (nothing recorded only when nothing changed)
+    if len(undo) != 1 or undo[0][0] is not path.state['d']: return False
+    def eq(entry, key):
+        if key is None: return entry is None
+        if entry is None or len(entry) != len(key): return False
+        return z3.And(*[term(e) == k for e, k in zip(entry, key)])
+    return L.And(eq(undo[0][1], old), eq(undo[0][2], new))
+
+
 # ------------------------------------------------------------------ EntityMeta._get_from_identity_map_ (real entities, real session cache)
 _M = None
 
@@ -305,12 +323,16 @@ CONTRACTS = [
               ('undo_record_exact', _si_undo_record), ('conflict_exception_type', _si_exc_type)],
              allowed_exc=(core.CacheIndexError, core.TransactionIntegrityError), replay=_si_replay),
     Contract('composite_index', ['pony.orm.core:SessionCache.update_composite_index', 'pony.orm.core:SessionCache.db_update_composite_index'], _ci_configs, _ci_case,
-             [('whole_view_new_added_old_removed_rest_unchanged', _ci_view)], level='bounded', bound='key arity 2 and 3',
+             [('whole_view_new_added_old_removed_rest_unchanged', _ci_view), ('undo_record_exact', _ci_undo)], level='bounded', bound='key arity 2 and 3',
              allowed_exc=(core.CacheIndexError, core.TransactionIntegrityError), replay=False),
     Contract('_get_from_identity_map_', 'pony.orm.core:EntityMeta._get_from_identity_map_', _im_configs, _im_case,
              [('returns_registered_object_or_registers_at_exactly_pk', _im_spec), ('class_refinement_only_to_subclass', _im_refinement)],
              allowed_exc=(core.CacheIndexError,), replay=False),
 ]
+
+from contracts import c11_rawkeys as RKY
+CONTRACTS += [Contract('raw_key_resolution', ['pony.orm.core:EntityMeta._get_by_raw_pkval_', 'pony.orm.core:EntityMeta.__getitem__', 'pony.orm.core:EntityMeta._get_from_identity_map_', 'pony.orm.core:unpickle_entity'],
+                       RKY.configs, RKY.case, [('every_way_of_reaching_a_row_hands_out_the_same_object_with_its_own_key', RKY.spec)], level='bounded', bound=RKY.BOUND)]
 
 from contracts import c13 as _c13
 # a refused / failed modification must leave the session as it was - identity map, key indexes, save queue and statuses included (contracted under C13 and shared here:
